@@ -42,7 +42,26 @@ Definition spec_best (p : port_identity) (l : list cand) : option cand :=
   find (fun e => forallb (fun o => pi_eqb (cd_src o) (cd_src e)
                                   || a_better_or_topo (fig34 (cds p e) (cds p o))) l) l.
 
+(** [evaluable] = false once something with a lasting effect outside the
+    oracle's bookkeeping happened (own-identity Announce: multiport rule; stale
+    sequence id: the record is rejected) *)
 Record st05 := mkS5 { cands : list (list cand); evaluable : bool }.
+
+Definition own_announce (c : pcase) (frame : bytes) : bool :=
+  if negb (is_compatible frame) then false else
+  match decoded frame with
+  | Some m => match m_body m with
+              | BAnnounce _ => pi_clock (h_source (m_header m)) =? own_clock c
+              | _ => false
+              end
+  | None => false
+  end.
+
+Definition seq_fresh (x : cand) (l : list cand) : bool :=
+  match find (fun y => pi_eqb (cd_src y) (cd_src x)) l with
+  | Some y => (h_seq (cd_h x) - h_seq (cd_h y)) mod 65536 <? 32767
+  | None => true
+  end.
 
 Definition tp_of_ann (h : header) (a : announce_body) : time_props :=
   mkTP (if h_utc_valid h then Some (an_utc_offset a) else None)
@@ -51,18 +70,19 @@ Definition tp_of_ann (h : header) (a : announce_body) : time_props :=
 
 Definition step_C05 (c : pcase) (s : st05) (prev : snapshot) (e : event) (o : list tobs) (sn : snapshot) : option st05 :=
   match e with
-  | EvRecvGeneral p frame =>
+  | EvRecvGeneral p frame | EvRecvEvent p frame _ =>
       match cand_of c prev p frame with
-      | Some x => Some (mkS5 (update_nth p (upsert x (nth p (cands s) [])) (cands s)) (evaluable s))
-      | None =>
-          (* anything else received (own identity, malformed, ...) leaves the shape *)
-          Some (mkS5 (cands s) false)
+      | Some x =>
+          let l := nth p (cands s) [] in
+          if seq_fresh x l then Some (mkS5 (update_nth p (upsert x l) (cands s)) (evaluable s))
+          else Some (mkS5 (cands s) false)
+      | None => Some (mkS5 (cands s) (evaluable s && negb (own_announce c frame)))
       end
   | EvBmca =>
       let ds := sn_ds prev in
       let dd := ds_default ds in
-      let fresh_ok := forallb (fun l => forallb (fun x => 2 <=? cd_fresh x) l) (cands s) in
-      let reset := mkS5 (map (map (fun x => mkCand (cd_src x) (cd_h x) (cd_a x) 0)) (cands s)) true in
+      let fresh_ok := forallb (fun l => forallb (fun x => 2 <=? cd_fresh x) l && (length l <=? 8)%nat) (cands s) in
+      let reset := mkS5 (map (map (fun x => mkCand (cd_src x) (cd_h x) (cd_a x) 0)) (cands s)) (evaluable s) in
       if negb (evaluable s && fresh_ok) then Some reset
       else
         let erb (p : nat) := spec_best (port_id c p) (nth p (cands s) []) in
@@ -113,8 +133,7 @@ Definition step_C05 (c : pcase) (s : st05) (prev : snapshot) (e : event) (o : li
               else ds_eqb (sn_ds sn) ds
           end in
         if states_ok && ds_ok then Some reset else None
-  | EvSetClockQuality _ | EvSetSlaveOnly _ | EvAnnounceReceiptTimer _ => Some s
-  | _ => Some (mkS5 (cands s) false)
+  | _ => Some s
   end.
 
 Definition ok_C05 (c : pcase) : bool :=
